@@ -68,9 +68,10 @@ class NullState:
                             return ['V']
                         return [c]
                     if last == 'reset':
-                        if not e.get('args'):
+                        a = [x for x in e.get('args', []) if not (isinstance(x, dict) and x.get('defarg'))]
+                        if not a:
                             return ['N']
-                        return sorted(self.value_state(e['args'][0]))
+                        return sorted(self.value_state(a[0]))
                     if last == 'operator=':
                         return sorted(self.value_state(e['args'][0])) if e.get('args') else ['N', 'V']
                     if last in ('release',):
